@@ -19,6 +19,8 @@ type c52Names struct {
 	unknown                    string
 }
 
+var c52MutExceptions = map[string]string{}
+
 func init() {
 	real := c52Names{typesRel: "sql/types", spatialRel: "sql/expression/function/spatial", writeEWKB: "WriteEWKBHeader", writeWKB: "WriteWKBHeader",
 		iface: "GeometryValue", evalFn: "EvalGeomFromWKB", evalArg: 3, unknown: "WKBUnknown"}
@@ -27,15 +29,23 @@ func init() {
 	register(&Property{
 		ID:        "C52",
 		Patterns:  []string{"./sql/expression/function/spatial"},
-		Technique: "writer/reader constant tables over go/types: serialiser header ids per geometry type, deserialiser dispatch switches, nested-element headers, typed FROMWKB constructors",
+		Technique: "writer/reader constant tables over go/types: serialiser header ids per geometry type, deserialiser dispatch switches, nested-element headers, typed FROMWKB constructors; M1: backward origin analysis over go/ssa (freshness engine: fresh/param/global/foreign leaves, flow-sensitive local cells and struct fields, callee result summaries, forwarding closure of writers over the static call graph)",
 		Explanation: "Geometry values are stored and exchanged as (E)WKB: a header with a type id (types.WKB*ID) followed by the data. Decided: (W1) every geometry struct's serialiser writes one id constant, " +
 			"ids are pairwise distinct, and every type implementing GeometryValue is covered by GeomColl.WriteData's type-switch table with the same id; nested element headers written by the multi-geometries carry the id of their element type; " +
 			"(R1) in every switch over the WKB id, the arm for id C calls the deserialiser whose result type's serialiser writes C, the switch covers all ids or its default returns an error; " +
 			"every guard 'if typ != C { error }' is followed by the deserialiser of the type that writes C; " +
 			"(F1) every typed ST_*FROMWKB function passes to EvalGeomFromWKB the id that the value type of its declared SQL type writes (the generic one passes WKBUnknown). " +
-			"A violated instance makes ST_GeomFromWKB(ST_AsWKB(g)) (or the stored form of g) come back as a different type or be rejected.",
-		NotCovered: "coordinate data round trip, byte order, SRID handling, WKT and GeoJSON codecs, spatial index vs predicate agreement",
-		Run:        func(c *Ctx) { runC52(c, real, 7) },
+			"A violated instance makes ST_GeomFromWKB(ST_AsWKB(g)) (or the stored form of g) come back as a different type or be rejected. " +
+			"(M1) geometry values are immutable: the value types (the struct implementers of GeometryValue, enumerated by go/types) are copied by value but share their point / ring / member slices with the value they were copied from - the row stored in the table. " +
+			"Every store into an element of a slice of geometry values or through a pointer to one, every copy() into such a slice, every append to a shortened re-slice of one (x[:k], the reuse-the-buffer idiom), every in-place sort/reverse of one (sort.Slice, slices.Sort..., frozen list) " +
+			"and every call of a module function that does one of these through its own parameter must target memory the storing function allocated itself (make, composite literal, append to those, a callee that returns only fresh memory). " +
+			"A target reached from the receiver, from a parameter of geometry type, from the result of Eval/UnwrapGeometry, from a field or a global rewrites a value the function does not own: ST_AsWKB(g)/ST_SwapXY(g) would change the stored g, so ST_GeomFromWKB(ST_AsWKB(g)) stops being g. " +
+			"Destination-passing helpers (a []Point parameter that is not a geometry value, static callers only) are decided at their call sites.",
+		NotCovered: "coordinate data round trip, byte order, SRID handling, WKT and GeoJSON codecs, spatial index vs predicate agreement; for M1: append to a full-length shared slice (writes in place only if there is spare capacity), stores performed inside callees whose bodies are not read (other than the listed in-place functions of sort/slices), aliases through the stored address of a local, sharing without writing (a result that keeps the operand's slice is fine for immutable values), []byte buffers (destination buffers by design)",
+		Run: func(c *Ctx) {
+			runC52(c, real, 7)
+			runC52Mut(c, c52MutCfg{typesRel: real.typesRel, iface: real.iface, floor: 40, minTypes: 7, exc: c52MutExceptions})
+		},
 		Fixture: func(c *Ctx, fx2 *Prog) {
 			expectFixture(c, fx2, "c52: wrong element header, wrong reader arm, missing id without error default, wrong guard, wrong typed constructor must be reported",
 				[]string{
@@ -47,8 +57,21 @@ func init() {
 					"C52-F1:LineFromWKB.Eval",
 				},
 				func(fc *Ctx) { runC52(fc, fx, 0) })
+			expectFixture(c, fx2, "c52-M1: rings swapped in place through a value receiver, points rewritten two levels down, helper writing the receiver's members, operand sorted / de-duplicated / overwritten in place",
+				[]string{
+					"C52-M1:Poly.Swap/store p.Lines[]",
+					"C52-M1:Poly.SetSRID/store p.Lines[].Points[].SRID",
+					"C52-M1:Coll.Swap/swapAll(c.Geoms)",
+					"C52-M1:sortedInPlace/sort.Slice(pts)",
+					"C52-M1:dedupInPlace/append to shortened re-slice of e.Eval().(mut.Line).Points",
+					"C52-M1:copyOver/copy into e.Eval().(mut.Line).Points",
+					"C52-M1:editSwappedAny/store l.Points[].SRID",
+				},
+				func(fc *Ctx) {
+					runC52Mut(fc, c52MutCfg{typesRel: "testdata/c52/mut", iface: "GeometryValue", minTypes: 4})
+				})
 		},
-		FixturePkgs: []string{"./testdata/c52/types", "./testdata/c52/spatial"},
+		FixturePkgs: []string{"./testdata/c52/types", "./testdata/c52/spatial", "./testdata/c52/mut"},
 	})
 }
 
